@@ -504,6 +504,43 @@ let run_stmt_full (b : backend) (s : Sexp.t) : string =
     (match emit_inline ftext b sc with Ok inl -> hex_of_str inl | Panic -> "PANIC")
   with Exit -> "PANIC"
 
+(* the decidable separability premise of the text-level theorems (Spec/EngScript.v), evaluated on the script the
+   model renders for this program: P = params_sep, I = inline_sep *)
+let run_sep (b : backend) (s : Sexp.t) : string =
+  try
+    let q = (match head s with
+      | "insert" -> let ((i, _), panicked) = insert_state s in if panicked then raise Exit else QInsert i
+      | "select" | "update" | "delete" | "withq" -> subquery s
+      | _ -> QSelect (build_select [SCSelExpr (SelExpr (expr s, None, None))])) in
+    let sc = rquery is_alpha_rust b (tables_of !more_parens b) fuel q in
+    (match emit_params ftext b sc with
+     | Panic -> "PANIC"
+     | Ok _ -> Printf.sprintf "P%d I%d" (if params_sep ftext b sc then 1 else 0) (if inline_sep ftext b sc then 1 else 0))
+  with Exit -> "PANIC"
+
+(* diagnostic: the first piece (from the end) whose text does not lex alone or whose seam is unsafe *)
+let run_sepdbg (b : backend) (s : Sexp.t) : string =
+  try
+    let q = (match head s with
+      | "insert" -> let ((i, _), panicked) = insert_state s in if panicked then raise Exit else QInsert i
+      | "select" | "update" | "delete" | "withq" -> subquery s
+      | _ -> QSelect (build_select [SCSelExpr (SelExpr (expr s, None, None))])) in
+    let sc = rquery is_alpha_rust b (tables_of !more_parens b) fuel q in
+    let ps = pieces ftext b sc in
+    let diag texts =
+      let rec suffixes l = match l with [] -> [[]] | _ :: t -> l :: suffixes t in
+      let sufs = List.rev (suffixes texts) in
+      let rec find = function
+        | [] -> "ok"
+        | l :: rest -> (match lex_texts b l with
+            | Some _ -> find rest
+            | None -> (match l with
+                | h :: t -> Printf.sprintf "piece=%s next=%s" (hex_of_str h) (hex_of_str (List.concat t))
+                | [] -> "?")) in
+      find sufs in
+    Printf.sprintf "P[%s] I[%s]" (diag (texts_params b ps)) (diag (texts_inline ftext b (vals_of sc) ps))
+  with Exit -> "PANIC"
+
 let run_entry (b : backend) (s : Sexp.t) : string =
   (* the model is one pure function: every entry point is the same rendering *)
   try
